@@ -1612,6 +1612,8 @@ class GR(G):
         self.classes = []  # (name, has_parent)
         self.objs = []
         self.users = []  # functions taking an object
+        self.pending_fiber = []
+        self.imported = 0
 
     def numx(self):
         c = self.i(0, 9)
@@ -1670,6 +1672,38 @@ class GR(G):
             s = ("fn", u, ["o"], [("return", ("bin", "+", ("call", ("prop", ("var", "o"), "get"), []), ("prop", ("var", "o"), "f")))])
             self.users.append(u)
             return ("ok", s)
+        if c < 60:
+            # a fault caught by a clause that names no class (the implicit Error), in an entry of its own
+            e = self.fresh("e")
+            fault = self.pick([("index", ("list", []), ("num", 3.0)), ("bin", "+", ("nil",), ("num", 1.0)), ("prop", ("num", 1.0), "zz")])
+            return ("ok", ("try", [("print", fault)], [(e, None, [("print", ("call", ("prop", ("call", ("prop", ("var", e), "cls"), []), "name"), []))])]))
+        if c < 64:
+            # fibers across entries: a channel, a worker, its launch and the receive each in an entry of their own
+            # (the launched fiber has not run when its entry ends)
+            step = len(self.pending_fiber)
+            if step == 0:
+                ch = self.fresh("ch")
+                self.pending_fiber = [ch]
+                return ("ok", ("let", ch, ("chan", ("num", 1.0))))
+            if step == 1:
+                w = self.fresh("w")
+                self.pending_fiber.append(w)
+                return ("ok", ("fn", w, ["c", "k"], [("expr", ("send", ("var", "c"), ("bin", "*", ("var", "k"), ("num", 2.0))))]))
+            if step == 2:
+                self.pending_fiber.append("launched")
+                return ("ok", ("launch", ("call", ("var", self.pending_fiber[1]), [("var", self.pending_fiber[0]), self.nexpr()])))
+            ch = self.pending_fiber[0]
+            self.pending_fiber = []
+            return ("ok", ("print", ("recv", ("var", ch))))
+        if c < 68:
+            # imports at the prompt (files: REPL_FILES): a module that does not compile (the entry fails, the session
+            # goes on), one that does, and calls into it (its code has property / invoke sites of its own)
+            if self.chance(35) and self.imported < 2:
+                return ("bad", "import self.broken;")
+            if not self.imported:
+                self.imported = 1
+                return ("ok", ("import", ["self", "good"], ("whole", None)))
+            return ("ok", ("print", ("bin", "+", ("call", ("prop", ("var", "good"), "useg"), []), self.nexpr())))
         if c < 72:
             if self.users and self.objs and self.chance(50):
                 return ("ok", ("print", ("call", ("var", self.pick(self.users)), [("var", self.pick(self.objs))])))
@@ -1705,6 +1739,18 @@ class GR(G):
 
     def history(self):
         out = []
+        if self.chance(15):
+            # the session's first entry declares a symbol of its own under the name of a builtin class the language
+            # refers to implicitly (superclass of a class that names none, class of a blank catch)
+            name = self.pick(["Object", "Error"])
+            if self.chance(60):
+                out.append(("ok", ("class", name, None, ("init", ["a"], [("expr", ("assign", ("prop", ("self",), "f"), ("var", "a")))]),
+                                   [("get", [], [("implicit", ("prop", ("self",), "f"))]),
+                                    ("twice", [], [("implicit", ("num", 0.0))])], [])))
+                self.classes.append(name)
+            else:
+                out.append(("ok", ("let", name, self.nexpr())))
+                self.nums.append(name)
         if self.chance(70):
             # a class, an instance and a function with property / invoke sites early in the session
             out.append(self.forced(26, 38))
@@ -1713,7 +1759,29 @@ class GR(G):
         out.extend(self.entry() for _ in range(self.i(3, 15)))
         if self.users and self.objs:
             out.append(("ok", ("print", ("call", ("var", self.pick(self.users)), [("var", self.pick(self.objs))]))))
+        # a fiber sequence that was begun is brought to its end (a launch without its receive prints nothing either way)
+        while self.pending_fiber:
+            out.append(self.forced(60, 64))
+        if not self.imported and self.chance(20):
+            # imports at the prompt, in this order at drawn places: (a module that does not compile,) a module that
+            # does, a call into it
+            seq = ([("bad", "import self.broken;")] if self.chance(65) else []) + \
+                [("ok", ("import", ["self", "good"], ("whole", None))),
+                 ("ok", ("print", ("bin", "+", ("call", ("prop", ("var", "good"), "useg"), []), ("num", float(self.i(0, 9))))))]
+            at = 0
+            for e in seq:
+                at = self.i(at, len(out))
+                out.insert(at, e)
+                at += 1
         return out
+
+
+REPL_FILES = {
+    "/v/good.lay": [("export", ("class", "G", None, ("init", [], [("expr", ("assign", ("prop", ("self",), "v"), ("num", 3.0)))]),
+                                [("get", [], [("return", ("prop", ("self",), "v"))])], [])),
+                    ("export", ("fn", "useg", [], [("return", ("call", ("prop", ("call", ("var", "G"), []), "get"), []))]))],
+}
+REPL_BROKEN = {"/v/broken.lay": "let x = ;\n"}
 
 
 def repl_history(cfg=None):
